@@ -144,7 +144,10 @@ def mon_requests(tr, sc):
                 out.append(("quit-ignored", "request %s still waits after its quit signal was given" % f[1]))
                 open_calls.discard(f[1])
     # the epilogue closed the client: nothing may be left waiting
-    dead = any(l.startswith(("dead after", "stalled ", "hang ", "readall parked")) for _, ls in tr for l in ls)
+    dead = any(l.startswith(("dead after", "stalled ", "hang ", "readall parked", "counters stalled")) for _, ls in tr for l in ls)
+    # (a writer left at a scripted gate that the script never opens keeps the locks: then Close itself waits, by the script's doing)
+    closed_ok = any(l == "close ok" or (l.startswith("disconnect ") and not l.startswith("disconnect blocked")) or l == "ret close ok" for _, ls in tr for l in ls)
+    dead = dead or not closed_ok or any(l in ("blocked close", "blocked disconnect") for o, ls in tr[-3:] for l in ls)
     if (sc and sc[-1] == "#epilogue" or any(o == "close" for o in sc[-4:])) and not dead:
         if pending:
             out.append(("never-returns", "request(s) %s never returned, even after Close" % sorted(pending)))
